@@ -41,6 +41,13 @@ def floors(tier):
     return f
 
 
+# argument forms of one and the same query (an iterable of nodes): sequence, set, one-shot iterator, generator, dict keys, reversed
+_FORMS = (
+    ("tuple", tuple), ("list", list), ("iter", iter), ("set", set), ("generator", lambda t: (x for x in t)), ("frozenset", frozenset),
+    ("map", lambda t: map(lambda x: x, t)), ("reversed-list", lambda t: list(reversed(t))), ("dict-keys", lambda t: dict.fromkeys(t).keys()),
+)
+
+
 def _edges(s):
     return {e: (m, a) for e, m, a in s[2]}
 
@@ -56,12 +63,15 @@ def per_op(mon, net, op, pre, outcome, hist):
     fam = {m for m, a in qe.values()}
     # (e) has_simplex answers membership exactly
     universe = [n for n, _ in post[1]] + ["<absent>", -77]
+    qi = len(hist)  # the form of a query depends on the position in the history and in the enumeration only (replayable)
     for k in range(1, min(4, len(universe)) + 1):
         for sub in combinations(universe, k):
             mon.note("has_simplex-queries")
-            got = net.has_simplex(sub)
+            form, conv = _FORMS[qi % len(_FORMS)]
+            qi += 1
+            got = net.has_simplex(conv(sub))
             if got != (frozenset(sub) in fam):
-                return fire("has_simplex-wrong", f"has_simplex({sub}) = {got} but membership is {frozenset(sub) in fam}")
+                return fire("has_simplex-wrong", f"has_simplex({form} of {sub}) = {got} but membership is {frozenset(sub) in fam}")
     name = op.name
     if outcome != "returned":
         return False
